@@ -62,13 +62,16 @@ CLAIMED = {
   text="Lean theorems over the model of make_diff (apply_diff_rb, call_diff_logic, base_diff with default/ordered/rewrite logics, "
        "mark/strip_unchanged), any rulebook/trees: per diff-logic group, dropping removed lines yields new in new's order, dropping "
        "added lines yields old as a multiset; ops are exact; self-diff is empty at every depth; MOVED is characterised exactly "
-       "(block_in_disorder closed form); strip idempotent. The stronger readings (MOVED iff relative order changed; old order "
+       "(block_in_disorder closed form); strip idempotent. Text views (Model/DiffText.lean = CommonFormatter._diff_lines and "
+       "gen_pre_as_diff(make_pre(.))): reading formatter.diff back gives the same entries, signs and nesting for every formatter "
+       "shape and any depth (hence the text determines the diff), a stripped diff always has a sign per entry, and the annet-diff "
+       "view reads back to the entries per level as a multiset. The stronger readings (MOVED iff relative order changed; old order "
        "recoverable) are FALSE of the code: kernel-checked witnesses, recorded as findings F03a/F03b. Tie: make_diff/"
-       "strip_unchanged vs the model on 4k (quick) generated rulebook/config cases; oracle: projections, exact ops, self-diff, "
-       "MOVED, and formatter.diff text read back, on the real outputs.",
-  note=COMMON_NOTE + "standard diff logics only (vendor %diff_logic and %multiline out of scope by the property text); text "
-       "round trip is oracle-only (formatter not yet in the Lean model).",
-  design="§5 C03", technique="Lean 4 proof (sorting/index invariants, mutual induction) + differential correspondence"),
+       "strip_unchanged and both text views (4 formatter shapes) vs the model on 4k (quick) generated rulebook/config cases; "
+       "oracle: projections, exact ops, self-diff, MOVED, and both texts read back, on the real outputs.",
+  note=COMMON_NOTE + "standard diff logics only (vendor %diff_logic and %multiline out of scope by the property text); colours "
+       "and show_rules of the annet-diff view are not modelled.",
+  design="§5 C03", technique="Lean 4 proof (sorting/index invariants, mutual induction; parser/printer round trip for the text views) + differential correspondence"),
  "C19": dict(
   text="Lean theorems over the model of run_file_generators/add_entire/new_files, str.splitlines, UnifiedFileDiffer, pc_diff and "
        "PCDeployerJob.parse_result (any generator list, file maps, flags): the stored result for a path is the argmax-priority one "
@@ -81,18 +84,22 @@ CLAIMED = {
        "declared character domain; JSON_FRAGMENT generators and FrrFileDiffer's frr.conf branch are not modelled.",
   design="§5 C19", technique="Lean 4 proof (fold/argmax lemmas, splitlines model) + differential correspondence"),
  "C01": dict(
-  text="PARTIAL proof. The device of the property is the specification Spec/Device.lean. Lean theorems: one level of that device "
-       "refines a finite map slot(rule,key) -> line: put/delete/exit commands act on exactly one slot, keep the level well-formed, "
-       "keep an identical line with its subtree, and leave every other slot's line, subtree and position alone; any command "
-       "sequence is determined per slot by the fold of the abstract step (C01_cmds_refine); equal maps give equal line sets. With "
-       "C08 (removal before re-creation, sort is a permutation) this is the algebra convergence rests on. The end-to-end statement "
-       "apply(cmd_paths(patch(old,new)),old) ~ new, second diff/patch empty, along chains of targets is NOT a theorem: it is decided "
-       "on every generated case by executing the real patch on the device specification (Python twin cross-checked against the Lean "
-       "spec). Full-strength statement false by design for permanent/ignore_changes (kernel-checked witnesses) and in 5 recorded "
-       "corner cases (F01c-g).",
-  note=COMMON_NOTE + "Spec/Device.lean is my reading of 'a device that holds one line per rule and key'; formatter.cmd_paths is "
-       "executed, not modelled here; block-structured vendors only; common logics; no rule row starts with the negation word.",
-  design="§5 C01", technique="Lean 4 proof (refinement of the device level to an abstract map) + differential correspondence + simulator oracle over chains"),
+  text="The device of the property is the specification Spec/Device.lean. Lean theorems: (1) one level of that device refines a "
+       "finite map slot(rule,key) -> line: put/delete/exit commands act on exactly one slot, keep the level well-formed, keep an "
+       "identical line with its subtree, and leave every other slot's line, subtree and position alone; any command sequence is "
+       "determined per slot by the fold of the abstract step (C01_cmds_refine). (2) END-TO-END CONVERGENCE: for rulebooks of any "
+       "depth over the default/undo_redo logics (one rule per line, one line per (rule,key), no %global/%ordered/%rewrite, no "
+       "%order_reverse pins) and any pair of configurations of any depth, executing the patch the modelled pipeline (make_diff, "
+       "make_pre, logics, ordering, make_patch, sort) computes on old yields new: C01_flat_converges (flat), C01_nested_converges "
+       "(patch tree) and C01_nested_converges_paths (the linearised command paths with exit words that cmd_paths sends, executed "
+       "one by one from the top); non-vacuity instances are kernel-checked. PARTIAL: %ordered/%rewrite/%global, custom logics and "
+       "chains of targets are decided on every generated case by executing the real patch on the device specification (Python "
+       "twin cross-checked against the Lean spec); the full-strength statement is false by design for permanent/ignore_changes "
+       "(kernel-checked witnesses) and in 5 recorded corner cases (F01c-g).",
+  note=COMMON_NOTE + "Spec/Device.lean is my reading of 'a device that holds one line per rule and key'; the linearisation "
+       "ConvergeNested.treePaths is compared with the real formatter.cmd_paths on every case (block-exit formatters); "
+       "block-structured vendors only; common logics; no rule row starts with the negation word.",
+  design="§5 C01", technique="Lean 4 proof (refinement of the device level to an abstract map; end-to-end convergence by induction over rule and configuration depth) + differential correspondence + simulator oracle over chains"),
  "C13": dict(
   text="Lean theorems over the model of apply_json_fragment/_ensure_pointer_exists/_resolve_json_pointers/apply_acl_filters/"
        "make_patch/apply_patch incl. jsonpointer, fnmatch and RFC 6902 application: under SpineObj (objects above every selectable "
@@ -144,13 +151,16 @@ CLAIMED = {
   design="§5 C17", technique="Lean 4 proof (structural induction over rule trees) + differential correspondence"),
  "C02": dict(
   text="PARTIAL proof. Lean theorems over the model of apply_acl_diff / make_diff with ACL / _diff_and_patch with an ACL: (a, provenance "
-       "form) every diff entry surviving the ACL - hence every command - has a row the ACL matches at every level; the ACL only drops "
-       "entries and only relabels REMOVED->AFFECTED; (c) a REMOVED entry whose selected match has only cant_delete generators is "
-       "relabelled, and no common logic emits a removal without a REMOVED/MOVED bucket; (b, on the device specification) commands on "
-       "other (rule,key) slots leave a line, its subtree and position alone over whole command lists. The text reading of (a) is false "
-       "of the code (kernel-checked witness, finding F02a); (b) needs the hypothesis that an uncovered row shares no slot with a "
-       "command (finding F02b). Tie: _diff_and_patch with acl_rules vs the model on 1.9k (quick) generated rulebook/ACL/config cases; "
-       "oracle: clauses (a)(b)(c) by executing the real patch on the device specification.",
+       "form, end to end: C02_device_patch_provenance) every item of the patch tree, at every depth, stems from an entry of the "
+       "ACL-filtered diff - it is the entry's row, the removal command of a REMOVED/MOVED entry or the commit of a %force_commit "
+       "rule, nothing else can appear in a patch built by the common logics - and every such entry has a row the ACL matches at "
+       "every level of its path and is deletable if REMOVED; the ACL only drops entries and only relabels REMOVED->AFFECTED; (c) a "
+       "REMOVED entry whose selected match has only cant_delete generators is relabelled, and no common logic emits a removal "
+       "without a REMOVED/MOVED bucket; (b, on the device specification) commands on other (rule,key) slots leave a line, its "
+       "subtree and position alone over whole command lists. The text reading of (a) is false of the code (kernel-checked witness, "
+       "finding F02a); (b) needs the hypothesis that an uncovered row shares no slot with a command (finding F02b); %rewrite groups "
+       "are re-sent as a whole (findings F02c, F02d). Tie: _diff_and_patch with acl_rules vs the model on 1.9k (quick) generated "
+       "rulebook/ACL/config cases; oracle: clauses (a)(b)(c) by executing the real patch on the device specification.",
   note=COMMON_NOTE + "device specification as in C01; ACL/pattern models tied by C06/C07; no filter-ACL; common logics.",
   design="§5 C02", technique="Lean 4 proof (mutual induction over diff trees; device-level frame lemma) + differential correspondence + simulator oracle"),
  "C11": dict(
